@@ -39,13 +39,15 @@ TECHNIQUE = ("Lean 4 theorems about the executable model (flattening/prefixing n
              "brute-force oracles (spelling agreement, list semantics, partition by each job's own value)")
 
 GROUP_KEYS = [None, "a", "b", "sp.a", "n.x", "sp.n.x", "n.y", "doc.d", "doc.a", "doc.m.x", "x",
+              "spin", "sp.spin", "docs", "doc.spin", ["spin", "a"], ["docs", "doc.spin"],
               ["a", "b"], ["a", "doc.d"], ["doc.d", "a"], ["n.x", "doc.m.x"], ["sp.b", "n.y"], ["a"], ["doc.a", "doc.d"],
               "call:a", "call:id"]
 DEFAULTS = [None, None, None, -7, "zz", 0]
 CLI_VALUES = ["1", "0", "-1", "2", "1.0", "0.5", "-2.0", "1e0", "true", "false", "null", "a", "ab", "b", "True",
               "None", "/a/", "/^a/", "/b$/", "/", "//", "!", '{"$lt": 1}', '{"$in": [1, "a"]}', "[1, 2]", "[1]",
               '{"$exists": false}', '"a"', "1_0", " 1", "+1", "1.", ".5", "0x10", '{"$type": "int"}', '{"x": 1}']
-CLI_KEYS = ["a", "b", "sp.a", "n.x", "doc.d", "doc.a", "doc.m.x", "a.$lt", "doc.d.$gte", "n", "a.$exists", "x"]
+CLI_KEYS = ["a", "b", "sp.a", "n.x", "doc.d", "doc.a", "doc.m.x", "a.$lt", "doc.d.$gte", "n", "a.$exists", "x",
+            "spin", "docs", "sp.spin", "doc.spin", "spin.$gte"]
 CLI_MALFORMED = [[""], ["a", ""], ["{a", "1"], ['{"a": 1}', "2"], ["[1]", "2"], ["a", "{bad}"], ["a", "[1,"], ["{"], ["[]"],
                  ['{"a": 1'], ["a", "1", "b"], ["a", "1", ""], ["a", "1", "a", "2"], ["a", "1", "sp.a", "2"], ["{}"],
                  ["[1, 2]"], ['{"a": {"$foo": 1}}'], ["a", "{}"], ["a", "[]"], ["a.$foo", "1"], ['{"$and": []}'], ["null"], ["a", "nan_x"]]
@@ -71,6 +73,8 @@ def _group_items(rng, n):
         key = rng.choice(GROUP_KEYS)
         flt = {} if rng.random() < 0.6 else rng.choice([{"a": {"$exists": True}}, {"b": {"$exists": False}},
                                                          {"doc.d": {"$exists": True}}, {"a": {"$ne": "zz"}},
+                                                         {"a": {"$gte": 1}}, {"sp.a": {"$lt": 2}}, {"doc.d": {"$gt": 0}},
+                                                         {"spin": {"$exists": True}}, {"b": {"$in": [1, "a", True]}},
                                                          {"$or": [{"a": 1}, {"n.x": {"$exists": True}}]}])
         out.append({"kind": "group", "filter": flt, "key": key, "default": rng.choice(DEFAULTS)})
     return out
